@@ -682,6 +682,8 @@ class TFLiteSemantic:
                 if offsets[idx] < 0:
                     # Convert negative indexing to positive ones
                     offsets[idx] += input_shape[idx]
+                # a position outside the dimension means its nearest end (as in the reference kernel)
+                offsets[idx] = max(0, min(offsets[idx], input_shape[idx]))
         return offsets
 
     @staticmethod
